@@ -146,7 +146,7 @@ class Check:
         prepop = rng.random() < 0.3
         n = rng.choice([1, 2, 2, 3, 4, 5])
         for k in range(n):
-            op = rng.choice(['install', 'install', 'install', 'only-changed', 'dry-run', 'uninstall', 'tags', 'skip-sub', 'skew'])
+            op = rng.choice(['install', 'install', 'install', 'only-changed', 'dry-run', 'uninstall', 'uninstall', 'tags', 'skip-sub', 'skew', 'userfile'])
             st: T.Dict[str, T.Any] = {'op': 'install'}
             if op == 'only-changed':
                 st['only_changed'] = True
@@ -160,6 +160,8 @@ class Check:
                 st['skip_subprojects'] = rng.choice(['*', IR.SUB, 'other'])
             elif op == 'skew':
                 st = {'op': 'skew', 'delta': rng.choice([-100, -1, 0, 1, 100]), 'which': rng.choice(['all', 'half'])}
+            elif op == 'userfile':
+                st = {'op': 'userfile', 'pick': rng.randrange(1000)}
             if st['op'] == 'install':
                 st['quiet'] = rng.random() < 0.2
             steps.append(st)
@@ -326,6 +328,24 @@ class Check:
                 kinds.append(f"skew{st['delta']}")
                 add(faults, 'mtime-skew')
                 continue
+            if st['op'] == 'userfile':
+                # the user drops a file of their own into a directory the install created
+                dirs = sorted(p for p, it in IR.snapshot(destdir).items() if it[0] == 'dir' and p not in pre)
+                if dirs:
+                    d = dirs[st['pick'] % len(dirs)]
+                    up = os.path.join(d, 'users later file')
+                    with open(up, 'w') as f:
+                        f.write('mine too\n')
+                    snap = IR.snapshot(destdir)
+                    pre[up] = snap[up]
+                    q_ = d
+                    while q_ != destdir and q_ not in pre:
+                        pre[q_] = snap[q_]
+                        q_ = os.path.dirname(q_)
+                    add(faults, 'user-file-added-after-install')
+                    nontrivial = True
+                kinds.append('userfile')
+                continue
             before = IR.snapshot(destdir)
             before_mtimes = {p: os.lstat(p).st_mtime_ns for p, it in before.items() if it[0] == 'file'}
             env = M.clean_env()
@@ -486,6 +506,19 @@ class Check:
                 phantom = sorted(p for p in logged_now if not os.path.lexists(p))
                 if phantom:
                     return R.violation('logged-not-created', f'step {si}: the install log names paths that do not exist: {phantom[:6]}', 'logged-not-created', **base)
+            # every install (fresh or not) re-creates the files and symlinks its rules specify, so the log must
+            # name them; files kept by --only-changed appear as '# Preserving' comments instead
+            for p_, it in exp.items():
+                if it[0] == 'dir' or p_ not in after:
+                    continue
+                if it[0] == 'file' and oc:
+                    continue
+                if p_ not in logged_now:
+                    return R.violation('installed-not-logged', f'step {si}: {os.path.relpath(p_, destdir)} ({it[0]}) is specified by the install rules and present, '
+                                       f'but the install log written by this step does not name it (uninstall would leave it behind)',
+                                       f'installed-not-logged:{it[0]}', **base)
+            if 'does not work on this platform' in out:
+                return R.violation('symlink-skipped', f'step {si}: the installer claims symlinks do not work on this platform: {out[-300:]}', 'symlink-skipped', **base)
             # (d) idempotence is implied by exactness of every step against the same specification
             installed_model = {p: it for p, it in after.items() if p not in pre}
             clean_full_install = fresh and not opts
